@@ -158,8 +158,12 @@ func (c *FnCtx) storeAnchor(in *ssa.Store, p Val, l location, v Val) {
 	if name == "" {
 		return
 	}
-	c.storeOrd[name]++
-	key := fmt.Sprintf("store %s#%d", name, c.storeOrd[name])
+	ord := c.storeOrdOf[in]
+	if ord == 0 {
+		c.storeOrd[name]++
+		ord = 1000 + c.storeOrd[name]
+	}
+	key := fmt.Sprintf("store %s#%d", name, ord)
 	c.anchorAsserts(key, func(env *Env) {
 		env.names["value"] = v
 		env.names["target"] = Val{T: p.T, Ty: types.NewPointer(p.BaseTy)}
